@@ -67,6 +67,59 @@ def _worker(args):
         return ('harness-error', 'shard %r: %s' % (spec, traceback.format_exc()))
 
 
+MEMORY_NET = 4 << 30      # soft address-space limit of one shard process
+
+
+def _child(conn, task):
+    try:
+        import resource
+        hard = resource.getrlimit(resource.RLIMIT_AS)[1]
+        resource.setrlimit(resource.RLIMIT_AS, (MEMORY_NET if hard == resource.RLIM_INFINITY else min(MEMORY_NET, hard), hard))
+    except (ImportError, ValueError, OSError):
+        pass
+    try:
+        conn.send(_worker(task))
+    finally:
+        conn.close()
+
+
+def _run_tasks(tasks, procs, deadline, guard):
+    """One forked process per shard, at most `procs` at a time. A shard process that dies without a result (killed by the OOM killer,
+    a crash of the interpreter) is a harness error - never a hang and never a violation."""
+    from multiprocessing.connection import wait
+    ctxmp = multiprocessing.get_context('fork')
+    pending = list(enumerate(tasks))
+    running = {}        # conn -> (index, process)
+    results = [None] * len(tasks)
+    try:
+        while pending or running:
+            while pending and len(running) < procs:
+                ix, task = pending.pop(0)
+                parent, child = ctxmp.Pipe(duplex=False)
+                proc = ctxmp.Process(target=_child, args=(child, task))
+                proc.start()
+                child.close()
+                running[parent] = (ix, proc)
+            remaining = deadline - time.time()
+            if remaining <= 0:
+                raise HarnessError('wall-clock guard of %ds hit (inconclusive)' % guard)
+            for conn in wait(list(running), timeout=min(remaining, 5.0)):
+                ix, proc = running.pop(conn)
+                try:
+                    results[ix] = conn.recv()
+                except EOFError:
+                    proc.join()
+                    results[ix] = ('harness-error', 'shard %r: worker process ended without a result (exit code %r; out of memory?)'
+                                   % (tasks[ix][5], proc.exitcode))
+                conn.close()
+                proc.join()
+    finally:
+        for conn, (ix, proc) in running.items():
+            proc.kill()
+            proc.join()
+    return results
+
+
 def write_replay(prop, violation):
     d = os.path.join(ROOT, 'work', 'replays-scratch', prop) if os.environ.get('VERIF_REPO_SRC') else os.path.join(ROOT, 'replays', prop)
     os.makedirs(d, exist_ok=True)
@@ -160,19 +213,7 @@ def main(argv=None):
         if procs == 1:
             results = [_worker(t) for t in tasks]
         else:
-            ctxmp = multiprocessing.get_context('fork')
-            with ctxmp.Pool(procs, maxtasksperchild=1) as pool:
-                asyncs = [pool.apply_async(_worker, (t,)) for t in tasks]
-                deadline = t_start + WALL_GUARD[args.tier]
-                for a in asyncs:
-                    remaining = deadline - time.time()
-                    if remaining <= 0:
-                        raise HarnessError('wall-clock guard of %ds hit (inconclusive)' % WALL_GUARD[args.tier])
-                    try:
-                        results.append(a.get(timeout=remaining))
-                    except multiprocessing.TimeoutError:
-                        pool.terminate()
-                        raise HarnessError('wall-clock guard of %ds hit (inconclusive)' % WALL_GUARD[args.tier])
+            results = _run_tasks(tasks, procs, t_start + WALL_GUARD[args.tier], WALL_GUARD[args.tier])
         errors = [r[1] for r in results if r[0] != 'ok']
         if errors:
             raise HarnessError('\n'.join(errors))
